@@ -3,7 +3,11 @@
   Prtpy/Model/RNP.lean): validity (C01), optimality for every `numbins ≤ 5` (C02), naturality (C07); and the
   two facts about 2-way complete Karmarkar–Karp that `SNPOpt` takes as hypotheses:
 
-  * `ckk2Optimal`    : `SNPOpt.Ckk2Optimal v nm` (from `CKKOpt.ckk_optimal`), hence `snp_optimal'`;
+  * `ckk2Optimal`    : `SNPOpt.Ckk2Optimal v nm`, hence `snp_optimal'` — since fix F11 (the 2-way search of snp/rnp
+                       is `ckkF`) these two, `rnpF_isPartition`, `rnpF_optimal`, `rnp_optimal_four` and `rnpF_natural`
+                       are in PrtpyProofs/CKKFSwitch.lean (same namespace `Prtpy.RNPF`), downstream of
+                       PrtpyProofs/CKKF.lean; this file keeps the parts relative to `CkkValid`/`Ckk2Optimal`
+                       (`rnpF_isPartition_of`, `rnpF_optimal_of_genComplete`) and `ckkGenComplete`;
   * `ckkGenComplete` : `SNPOpt.CkkGenComplete v nm` — the 2-way generator started with the bound `d` yields every
                        2-way split of difference `< d` (§6: a contents-level `Reach` for two bins, `RC`).
 
@@ -29,31 +33,10 @@ open Prtpy.SNPOpt (Ckk2Optimal CkkGenComplete)
 
 variable {α : Type}
 
-/-! ## 1. 2-way CKK is optimal; SNP is optimal without hypotheses -/
+/-! ## 1. (moved) 2-way CKK is optimal; SNP is optimal without hypotheses
 
-/-- the hypothesis `Ckk2Optimal` of `SNPOpt` holds -/
-theorem ckk2Optimal (v nm : α → Nat) [BEq α] [LawfulBEq α] : Ckk2Optimal v nm :=
-  fun _ _ _ hne h => CKKOpt.ckk_optimal (by omega) hne h
-
-example : IsOptimalValue .minDiff 2 ([4, 5, 6, 7, 8].map id)
-    (Objective.minDiff.value (⟨[15, 15], [[4, 5, 6], [7, 8]]⟩ : Bins Nat).sums false) :=
-  ckk2Optimal id id [4, 5, 6, 7, 8] 100 _ (by decide) rfl
-
-/-- **C02 for SNP**, unconditionally -/
-theorem snp_optimal' {v nm : α → Nat} [BEq α] [LawfulBEq α] {k : Nat} {items : List α}
-    {fuel : Nat} {b : Bins α} (hk : 0 < k) (hne : items ≠ []) (h : snp v nm k true items fuel = .ok b) :
-    IsOptimalValue .minDiff k (items.map v) (Objective.minDiff.value b.sums false) :=
-  SNPOpt.snp_optimal (ckk2Optimal v nm) hk hne h
-
-/-- non-vacuity: six items, three bins; KK's first answer `[5, 5, 7]` has difference 2, the search improves it -/
-example : IsOptimalValue .minDiff 3 ([5, 3, 3, 2, 2, 2].map id) 1 :=
-  snp_optimal' (nm := id) (k := 3) (fuel := 100) (b := ⟨[6, 6, 5], [[2, 2, 2], [3, 3], [5]]⟩)
-    (by decide) (by decide) rfl
-
-/-- five bins, the input on which the old `rnp` fails -/
-example : IsOptimalValue .minDiff 5 ([11, 9, 9, 6, 6, 4, 4, 4].map id) 3 :=
-  snp_optimal' (nm := id) (k := 5) (fuel := 1000) (b := ⟨[12, 12, 9, 11, 9], [[4, 4, 4], [6, 6], [9], [11], [9]]⟩)
-    (by decide) (by decide) rfl
+  `ckk2Optimal` and `snp_optimal'` are in PrtpyProofs/CKKFSwitch.lean (same namespace): since fix F11 the 2-way
+  search of snp/rnp is `ckkF`, whose optimality is proved in PrtpyProofs/CKKF.lean, downstream of this file. -/
 
 /-! ## 2. unfolding `rnpRecF` -/
 
@@ -65,9 +48,9 @@ theorem rnpRecF_two_eq {v nm : α → Nat} [BEq α] {fuel rf : Nat} {prior best 
     rw [rnpRecF] at h
     simpa only [BEq.rfl, if_true] using h
 
-theorem rnpRecF_two {v nm : α → Nat} [BEq α] {fuel rf : Nat} {prior best r : Bins α}
+theorem rnpRecF_two {v nm : α → Nat} [BEq α] (hckk : SNPProofs.CkkValid v nm) {fuel rf : Nat} {prior best r : Bins α}
     {items : List α} (h : rnpRecF v nm true fuel rf 2 prior best items = .ok r) : IsPartition v items 2 r :=
-  SNPProofs.ckk2_valid (CKKValid.ckkValid v nm) (rnpRecF_two_eq h)
+  SNPProofs.ckk2_valid hckk (rnpRecF_two_eq h)
 
 /-- the loop body of the odd case -/
 def oddStep (v nm : α → Nat) [BEq α] (fuel rf cur : Nat) (prior : Bins α) (items : List α)
@@ -205,19 +188,20 @@ theorem top_lists_perm {v : α → Nat} {items : List α} {top : Bins α} (h : I
     rw [hl] at tp
     simpa using tp
 
-theorem evenStep_inv {v nm : α → Nat} [BEq α] {fuel rf : Nat} {prior best : Bins α} {items : List α}
+theorem evenStep_inv {v nm : α → Nat} [BEq α] (hckk : SNPProofs.CkkValid v nm) {fuel rf : Nat} {prior best : Bins α} {items : List α}
     {st st' : Bins α × Nat} {top : Bins α} (htop : IsPartition v items 2 top)
     (hs : EvenInv v items prior best st) (h : evenStep v nm fuel rf 2 prior st top = .ok st') :
     EvenInv v items prior best st' := by
   obtain ⟨nb1, nb2, h1, h2, ⟨hlt, rfl⟩ | ⟨_, rfl⟩⟩ := evenStep_cases h
   · right
-    refine ⟨SNPProofs.isPartition_concat (rnpRecF_two h1) (rnpRecF_two h2) (top_lists_perm htop) rfl, rfl, ?_⟩
+    refine ⟨SNPProofs.isPartition_concat (rnpRecF_two hckk h1) (rnpRecF_two hckk h2) (top_lists_perm htop) rfl, rfl, ?_⟩
     exact Nat.lt_of_lt_of_le hlt (evenInv_le hs)
   · exact hs
 
-/-! ## 3. validity (C01) -/
+/-! ## 3. validity (C01), relative to the validity of the 2-way search (`SNPProofs.CkkValid`, i.e. of `ckkF … 2 …`);
+  the unconditional `rnpF_isPartition` is in PrtpyProofs/CKKFSwitch.lean -/
 
-theorem rnpRecF_four {v nm : α → Nat} [BEq α] {fuel rf : Nat} {prior best r : Bins α}
+theorem rnpRecF_four {v nm : α → Nat} [BEq α] (hckk : SNPProofs.CkkValid v nm) {fuel rf : Nat} {prior best r : Bins α}
     {items : List α} (h : rnpRecF v nm true fuel rf 4 prior best items = .ok r) :
     IsPartition v items 4 r ∨ r = best := by
   cases rf with
@@ -241,7 +225,7 @@ theorem rnpRecF_four {v nm : α → Nat} [BEq α] {fuel rf : Nat} {prior best r 
           simp only [Except.map] at h
           cases h
           have := SNPProofs.foldE_inv (EvenInv v items prior best) _ tops
-            (fun s top s' htop hs hstep => evenStep_inv (htops top htop) hs hstep)
+            (fun s top s' htop hs hstep => evenStep_inv hckk (htops top htop) hs hstep)
             (best, spread best.sums) st (Or.inl ⟨rfl, rfl⟩) hf
           rcases this with ⟨h1, _⟩ | ⟨h1, _⟩
           · exact Or.inr h1
@@ -274,26 +258,26 @@ theorem rnpRecF_odd {v nm : α → Nat} [BEq α] [LawfulBEq α] {fuel rf cur : N
     · exact absurd hlt (Nat.not_lt.2 (SNPProofs.spread_le_append _ _))
   · exact hs
 
-theorem rnpRecF_three {v nm : α → Nat} [BEq α] [LawfulBEq α] {fuel rf : Nat} {prior best r : Bins α}
+theorem rnpRecF_three {v nm : α → Nat} [BEq α] [LawfulBEq α] (hckk : SNPProofs.CkkValid v nm) {fuel rf : Nat} {prior best r : Bins α}
     {items : List α} (hpc : prior.Consistent v)
     (h : rnpRecF v nm true fuel rf 3 prior best items = .ok r) :
     IsPartition v (prior.lists.flatten ++ items) (prior.lists.length + 3) r ∨ r = best := by
   cases rf with
   | zero => simp only [rnpRecF] at h; cases h
   | succ rf =>
-    exact rnpRecF_odd (cur := 3) rfl (fun _ _ _ _ hr => Or.inl (rnpRecF_two hr)) hpc h
+    exact rnpRecF_odd (cur := 3) rfl (fun _ _ _ _ hr => Or.inl (rnpRecF_two hckk hr)) hpc h
 
-theorem rnpRecF_five {v nm : α → Nat} [BEq α] [LawfulBEq α] {fuel rf : Nat} {prior best r : Bins α}
+theorem rnpRecF_five {v nm : α → Nat} [BEq α] [LawfulBEq α] (hckk : SNPProofs.CkkValid v nm) {fuel rf : Nat} {prior best r : Bins α}
     {items : List α} (hpc : prior.Consistent v)
     (h : rnpRecF v nm true fuel rf 5 prior best items = .ok r) :
     IsPartition v (prior.lists.flatten ++ items) (prior.lists.length + 5) r ∨ r = best := by
   cases rf with
   | zero => simp only [rnpRecF] at h; cases h
   | succ rf =>
-    exact rnpRecF_odd (cur := 5) rfl (fun _ _ _ _ hr => rnpRecF_four hr) hpc h
+    exact rnpRecF_odd (cur := 5) rfl (fun _ _ _ _ hr => rnpRecF_four hckk hr) hpc h
 
-/-- **C01 for `rnpF`** (numbins ≤ 5) -/
-theorem rnpF_isPartition {v nm : α → Nat} [BEq α] [LawfulBEq α] {k : Nat} {items : List α} {fuel : Nat}
+/-- **C01 for `rnpF`** (numbins ≤ 5), relative to the validity of the 2-way search -/
+theorem rnpF_isPartition_of {v nm : α → Nat} [BEq α] [LawfulBEq α] (hckk : SNPProofs.CkkValid v nm) {k : Nat} {items : List α} {fuel : Nat}
     {b : Bins α} (hk : 0 < k) (hk5 : k ≤ 5) (hne : items ≠ [])
     (h : rnpF v nm k true items fuel = .ok b) : IsPartition v items k b := by
   unfold rnpF at h
@@ -310,22 +294,16 @@ theorem rnpF_isPartition {v nm : α → Nat} [BEq α] [LawfulBEq α] {k : Nat} {
       have hnil : (⟨[], []⟩ : Bins α).Consistent v := rfl
       obtain rfl | rfl | rfl | rfl | rfl : k = 1 ∨ k = 2 ∨ k = 3 ∨ k = 4 ∨ k = 5 := by omega
       · exact absurd (SNPOpt.spread_one_bin hbest) hsp
-      · exact rnpRecF_two h
-      · rcases rnpRecF_three hnil h with hr | rfl
+      · exact rnpRecF_two hckk h
+      · rcases rnpRecF_three hckk hnil h with hr | rfl
         · simpa using hr
         · exact hbest
-      · rcases rnpRecF_four h with hr | rfl
+      · rcases rnpRecF_four hckk h with hr | rfl
         · exact hr
         · exact hbest
-      · rcases rnpRecF_five hnil h with hr | rfl
+      · rcases rnpRecF_five hckk hnil h with hr | rfl
         · simpa using hr
         · exact hbest
-
-example : IsPartition id [11, 9, 9, 6, 6, 4, 4, 4] 5 ⟨[9, 9, 12, 11, 12], [[9], [9], [6, 6], [11], [4, 4, 4]]⟩ :=
-  rnpF_isPartition (nm := id) (fuel := 1000) (by decide) (by decide) (by decide) rfl
-
-example : IsPartition id [5, 3, 3, 3, 2, 2, 2, 2] 4 ⟨[5, 6, 5, 6], [[5], [2, 2, 2], [2, 3], [3, 3]]⟩ :=
-  rnpF_isPartition (nm := id) (fuel := 1000) (by decide) (by decide) (by decide) rfl
 
 /-! ## 4. optimality (C02), relative to the two facts about 2-way CKK -/
 
@@ -376,7 +354,7 @@ theorem rnpRecF_four_opt {v nm : α → Nat} [BEq α] (hckk : Ckk2Optimal v nm) 
           simp only [Except.map] at h
           cases h
           have hinv : EvenInv v items prior best st := SNPProofs.foldE_inv (EvenInv v items prior best) _ tops
-            (fun s top s' htop hs hstep => evenStep_inv (htops top htop) hs hstep)
+            (fun s top s' htop hs hstep => evenStep_inv hckk.valid (htops top htop) hs hstep)
             (best, spread best.sums) st (Or.inl ⟨rfl, rfl⟩) hf
           refine ⟨st.2, hinv, ?_⟩
           intro L hl hp
@@ -505,7 +483,7 @@ theorem rnpF_optimal_of_genComplete {v nm : α → Nat} [BEq α] [LawfulBEq α] 
     (hgen : CkkGenComplete v nm) {k : Nat} {items : List α} {fuel : Nat} {b : Bins α}
     (hk : 0 < k) (hk5 : k ≤ 5) (hne : items ≠ []) (h : rnpF v nm k true items fuel = .ok b) :
     IsOptimalValue .minDiff k (items.map v) (Objective.minDiff.value b.sums false) := by
-  refine SNPOpt.optimal_of_le (rnpF_isPartition hk hk5 hne h) ?_
+  refine SNPOpt.optimal_of_le (rnpF_isPartition_of hckk.valid hk hk5 hne h) ?_
   intro L hl hp
   unfold rnpF at h
   cases hb : kk v k items with
@@ -547,99 +525,10 @@ example (hckk : Ckk2Optimal (id : Nat → Nat) id) (hgen : CkkGenComplete (id : 
   rnpF_optimal_of_genComplete hckk hgen (k := 5) (fuel := 1000)
     (b := ⟨[9, 9, 12, 11, 12], [[9], [9], [6, 6], [11], [4, 4, 4]]⟩) (by decide) (by decide) (by decide) rfl
 
-/-! ## 5. naturality (C07) -/
+/-! ## 5. (moved) naturality (C07)
 
-section Natural
-open Prtpy.Natural Prtpy.Natural2
-variable {β : Type}
-variable (f : α → β) (vα : α → Nat) (vβ : β → Nat) (hf : ∀ a, vβ (f a) = vα a)
-variable [BEq α] [LawfulBEq α] [BEq β] [LawfulBEq β] (hinj : ∀ a b, f a = f b → a = b)
-variable (nmα : α → Nat) (nmβ : β → Nat) (hnm : ∀ a, nmβ (f a) = nmα a)
-include hf hinj hnm
-
-theorem rnpRecF_natural (contents : Bool) (fuel : Nat) :
-    ∀ (rf cur : Nat) (prior best : Bins α) (items : List α),
-      rnpRecF vβ nmβ contents fuel rf cur (prior.mapItems f) (best.mapItems f) (items.map f)
-        = (rnpRecF vα nmα contents fuel rf cur prior best items).map (Bins.mapItems f) := by
-  intro rf
-  induction rf with
-  | zero => intros; rfl
-  | succ rf ih =>
-    intro cur prior best items
-    simp only [rnpRecF]
-    refine ite_map _ (ckk2_natural f vα vβ hf hinj nmα nmβ hnm contents items fuel) (ite_map _ ?_ ?_)
-    · simp only [binSum_map f vα vβ hf, genTree_natural f vα vβ hf]
-      refine foldE_natural (Bins.mapItems f) (List.map f) _ _ ?_ best _
-      intro b sub
-      have hp : (⟨(prior.mapItems f).sums ++ [binSum vβ (sub.map f)], (prior.mapItems f).lists ++ [sub.map f]⟩ : Bins β)
-          = (⟨prior.sums ++ [binSum vα sub], prior.lists ++ [sub]⟩ : Bins α).mapItems f := by
-        simp only [Bins.mapItems, binSum_map f vα vβ hf, List.map_append, List.map_cons, List.map_nil]
-      simp only [hp, findDiff_natural f hinj, ih]
-      cases rnpRecF vα nmα contents fuel rf (cur - 1) ⟨prior.sums ++ [binSum vα sub], prior.lists ++ [sub]⟩ b
-          (findDiff items sub) with
-      | error e => rfl
-      | ok nb =>
-        simp only [map_ok, mapItems_sums, ← mapItems_concat, binSum_map f vα vβ hf]
-        exact ite_map _ rfl rfl
-    · simp only [List.isEmpty_map, ckkGen_natural f hinj nmα nmβ hnm vα vβ hf, mapItems_sums]
-      cases hemp : items.isEmpty with
-      | true => rfl
-      | false =>
-        simp only [Bool.false_eq_true, if_false]
-        cases ckkGen vα nmα 2 true items (some (spread best.sums)) fuel with
-        | error e => rfl
-        | ok tops =>
-          simp only [map_ok]
-          have key : ∀ (e' : Except Err (Bins β × Nat)) (e : Except Err (Bins α × Nat)),
-              e' = e.map (fun st => (st.1.mapItems f, st.2)) →
-              e'.map (·.1) = (e.map (·.1)).map (Bins.mapItems f) := by
-            intro e' e h; subst h; cases e <;> rfl
-          refine key _ _ (foldE_natural (fun (st : Bins α × Nat) => (st.1.mapItems f, st.2)) (Bins.mapItems f)
-            _ _ ?_ (best, spread best.sums) tops)
-          intro st top
-          simp only [mapItems_lists, getD_map_map, ih]
-          cases rnpRecF vα nmα contents fuel rf (cur / 2) prior st.1 (top.lists.getD 0 []) with
-          | error e => rfl
-          | ok nb1 =>
-            simp only [map_ok]
-            cases rnpRecF vα nmα contents fuel rf (cur / 2) prior st.1 (top.lists.getD 1 []) with
-            | error e => rfl
-            | ok nb2 =>
-              simp only [map_ok, mapItems_sums, ← mapItems_concat]
-              exact ite_map _ rfl rfl
-
-/-- **C07 for `rnpF`**: recursive number partitioning is natural for injective renamings of the items that preserve
-    values and name keys -/
-theorem rnpF_natural (k : Nat) (contents : Bool) (items : List α) (fuel : Nat) :
-    rnpF vβ nmβ k contents (items.map f) fuel = (rnpF vα nmα k contents items fuel).map (Bins.mapItems f) := by
-  simp only [rnpF, kk_natural f vα vβ hf]
-  cases kk vα k items with
-  | error e => rfl
-  | ok best =>
-    simp only [map_ok, mapItems_sums]
-    exact ite_map _ rfl (ite_map _ rfl
-      (rnpRecF_natural f vα vβ hf hinj nmα nmβ hnm contents fuel (k + 1) k ⟨[], []⟩ best items))
-
-end Natural
-
-example : rnpF Prod.fst (fun p => p.2.toNat) 4 true (Natural2.exNames.map Natural2.entry) 1000
-    = (rnpF Natural2.exVal Char.toNat 4 true Natural2.exNames 1000).map (Bins.mapItems Natural2.entry) :=
-  rnpF_natural Natural2.entry Natural2.exVal Prod.fst (fun _ => rfl) (fun _ _ h => congrArg Prod.snd h) Char.toNat
-    (fun p => p.2.toNat) (fun _ => rfl) 4 true Natural2.exNames 1000
-example : (rnpF Natural2.exVal Char.toNat 4 true Natural2.exNames 1000).map (·.lists)
-    = .ok [['e'], ['a', 'd'], ['b'], ['f', 'c']] := by rfl
-/-- five bins, eight named items with the values `11, 9, 9, 6, 6, 4, 4, 4` (the input on which the old `rnp` fails) -/
-def exNames8 : List Char := ['a', 'b', 'c', 'd', 'e', 'f', 'g', 'h']
-def exVal8 (c : Char) : Nat :=
-  if c = 'a' then 11 else if c = 'b' then 9 else if c = 'c' then 9 else if c = 'd' then 6 else if c = 'e' then 6 else 4
-def entry8 (c : Char) : Nat × Char := (exVal8 c, c)
-
-example : rnpF Prod.fst (fun p : Nat × Char => p.2.toNat) 5 true (exNames8.map entry8) 1000
-    = (rnpF exVal8 Char.toNat 5 true exNames8 1000).map (Bins.mapItems entry8) :=
-  rnpF_natural entry8 exVal8 Prod.fst (fun _ => rfl) (fun _ _ h => congrArg Prod.snd h) Char.toNat
-    (fun p => p.2.toNat) (fun _ => rfl) 5 true exNames8 1000
-example : (rnpF exVal8 Char.toNat 5 true exNames8 1000).map (·.lists)
-    = .ok [['b'], ['c'], ['d', 'e'], ['a'], ['f', 'g', 'h']] := by rfl
+  `rnpRecF_natural`, `rnpF_natural` and their examples are in PrtpyProofs/CKKFSwitch.lean (same namespace): they
+  need the naturality of `ckkF` (`CKKF.ckkF_natural`), proved downstream of this file. -/
 
 open Prtpy.CKKOpt (Reach sumsH)
 
@@ -1084,57 +973,17 @@ example : ∃ top ∈ [(⟨[14, 16], [[6, 8], [4, 5, 7]]⟩ : Bins Nat), ⟨[15,
   ckkGenComplete id id [4, 5, 6, 7, 8] 3 100 _ (by decide) rfl [8, 6] [7, 5, 4] (by decide) (by decide)
 
 
-/-! ## 7. optimality (C02), unconditionally -/
+/-! ## 7. (moved) optimality (C02), unconditionally
 
-/-- **C02 for `rnpF`, every `numbins ≤ 5`**: recursive number partitioning (after F10) returns a partition whose
-    difference between the largest and the smallest sum is minimal -/
-theorem rnpF_optimal {v nm : α → Nat} [BEq α] [LawfulBEq α] {k : Nat} {items : List α} {fuel : Nat} {b : Bins α}
-    (hk : 0 < k) (hk5 : k ≤ 5) (hne : items ≠ []) (h : rnpF v nm k true items fuel = .ok b) :
-    IsOptimalValue .minDiff k (items.map v) (Objective.minDiff.value b.sums false) :=
-  rnpF_optimal_of_genComplete (ckk2Optimal v nm) (ckkGenComplete v nm) hk hk5 hne h
-
-/-- the input on which the code before F10 returned difference 4 (`SNPOpt.rnp_not_optimal_five`): the repaired
-    code returns the sums `[9, 9, 12, 11, 12]`, difference 3 … -/
-example : (rnpF id id 5 true [11, 9, 9, 6, 6, 4, 4, 4] 1000).toOption.map (·.sums) = some [9, 9, 12, 11, 12] := by
-  rfl
-
-example : (rnpF id id 5 true [11, 9, 9, 6, 6, 4, 4, 4] 1000).toOption.map
-    (fun b => Objective.minDiff.value b.sums false) = some 3 := by
-  decide
-
-/-- … which is optimal (non-vacuity of `rnpF_optimal`, five bins: the odd case on top of the even case with a
-    non-empty prior) -/
-example : IsOptimalValue .minDiff 5 ([11, 9, 9, 6, 6, 4, 4, 4].map id) 3 :=
-  rnpF_optimal (nm := id) (k := 5) (fuel := 1000)
-    (b := ⟨[9, 9, 12, 11, 12], [[9], [9], [6, 6], [11], [4, 4, 4]]⟩) (by decide) (by decide) (by decide) rfl
-
-/-- non-vacuity, four bins (the even case at top level) -/
-example : IsOptimalValue .minDiff 4 ([5, 3, 3, 3, 2, 2, 2, 2].map id) 1 :=
-  rnpF_optimal (nm := id) (k := 4) (fuel := 1000) (b := ⟨[5, 6, 5, 6], [[5], [2, 2, 2], [2, 3], [3, 3]]⟩)
-    (by decide) (by decide) (by decide) rfl
-
-/-- non-vacuity, three bins (the odd case) -/
-example : IsOptimalValue .minDiff 3 ([5, 3, 3, 2, 2, 2].map id) 1 :=
-  rnpF_optimal (nm := id) (k := 3) (fuel := 1000) (b := ⟨[5, 6, 6], [[5], [2, 2, 2], [3, 3]]⟩)
-    (by decide) (by decide) (by decide) rfl
-
-/-- by-product: the code before F10 is optimal up to four bins, without hypotheses -/
-theorem rnp_optimal_four {v nm : α → Nat} [BEq α] [LawfulBEq α] {k : Nat} {items : List α} {fuel : Nat}
-    {b : Bins α} (hk : 0 < k) (hk4 : k ≤ 4) (hne : items ≠ []) (h : rnp v nm k true items fuel = .ok b) :
-    IsOptimalValue .minDiff k (items.map v) (Objective.minDiff.value b.sums false) :=
-  SNPOpt.rnp_optimal (ckk2Optimal v nm) (ckkGenComplete v nm) hk hk4 hne h
+  `rnpF_optimal` and `rnp_optimal_four` are in PrtpyProofs/CKKFSwitch.lean (same namespace). -/
 
 end Prtpy.RNPF
 
 /-
 Axiom audit (output of `#print axioms` observed with `lake env lean`):
 
-#print axioms Prtpy.RNPF.ckk2Optimal
-  'Prtpy.RNPF.ckk2Optimal' depends on axioms: [propext, Classical.choice, Quot.sound]
-#print axioms Prtpy.RNPF.snp_optimal'
-  'Prtpy.RNPF.snp_optimal'' depends on axioms: [propext, Classical.choice, Quot.sound]
-#print axioms Prtpy.RNPF.rnpF_isPartition
-  'Prtpy.RNPF.rnpF_isPartition' depends on axioms: [propext, Classical.choice, Quot.sound]
+#print axioms Prtpy.RNPF.rnpF_isPartition_of
+  'Prtpy.RNPF.rnpF_isPartition_of' depends on axioms: [propext, Classical.choice, Quot.sound]
 #print axioms Prtpy.RNPF.ckkGenComplete
   'Prtpy.RNPF.ckkGenComplete' depends on axioms: [propext, Classical.choice, Quot.sound]
 #print axioms Prtpy.RNPF.rnpRecF_four_opt
@@ -1143,10 +992,4 @@ Axiom audit (output of `#print axioms` observed with `lake env lean`):
   'Prtpy.RNPF.rnpRecF_odd_opt' depends on axioms: [propext, Classical.choice, Quot.sound]
 #print axioms Prtpy.RNPF.rnpF_optimal_of_genComplete
   'Prtpy.RNPF.rnpF_optimal_of_genComplete' depends on axioms: [propext, Classical.choice, Quot.sound]
-#print axioms Prtpy.RNPF.rnpF_optimal
-  'Prtpy.RNPF.rnpF_optimal' depends on axioms: [propext, Classical.choice, Quot.sound]
-#print axioms Prtpy.RNPF.rnp_optimal_four
-  'Prtpy.RNPF.rnp_optimal_four' depends on axioms: [propext, Classical.choice, Quot.sound]
-#print axioms Prtpy.RNPF.rnpF_natural
-  'Prtpy.RNPF.rnpF_natural' depends on axioms: [propext, Quot.sound]
 -/
